@@ -111,6 +111,10 @@ class _CmOps:
         self.passed = passed
         self.counter = 0
 
+    def name(self, ident, env):
+        # (exception classes are globals: also visible inside helper methods evaluated by a nested machine)
+        return ("cls", ident) if ident in HIER else UNKNOWN
+
     def _fresh(self, cls: str, cause=None):
         self.counter += 1
         return exc(f"N{self.counter}", cls, cause)
